@@ -37,6 +37,9 @@ ASSUMPTIONS = [
     'where delta underflows) is "ill defined" and not judged',
     'configurations whose |g.b1|/|g| lies within 5% of 1e-10 length units are "do not care" for the expected path',
     'wavelength unit angstrom only; wavelength values are float32-representable so one reference serves both dtypes',
+    'violation kinds: a 2theta that fails the documented construction but equals angle(b1, b2 - delta e_y) to the same tolerance is '
+    'labelled ..._uses_lowered_beam_... / discontinuous_in_tilt_lowered_beam (one recognisable wrong construction); every other '
+    'failure keeps the generic kind, so the two can be told apart; one violation per (site, kind) per case, worst offender kept',
 ]
 BOUND = {
     'quick': '3 frames x {(1 m, b2 in mm), (10 mm, b2 in m)} x 17 tilts x |g| in {1e-30, 9.81, 100} x one L2 of {0.1, 5, 100} m each',
